@@ -351,7 +351,7 @@ func (e *GRPCEndpointExpr) Finalize() {
 			e.Metadata.Type.(*Object).Set("goa_payload", e.MethodExpr.Payload)
 			e.Metadata.Validation.AddRequired("goa_payload")
 		} else {
-			initAttrFromDesign(e.Request, e.MethodExpr.Payload)
+			initMessageFromDesign(e.Request, e.MethodExpr.Payload)
 		}
 	}
 
@@ -364,7 +364,7 @@ func (e *GRPCEndpointExpr) Finalize() {
 		if ut, ok := attr.Type.(UserType); ok {
 			attr = ut.Attribute()
 		}
-		initAttrFromDesign(e.StreamingRequest, attr)
+		initMessageFromDesign(e.StreamingRequest, attr)
 		if msgObj := AsObject(e.StreamingRequest.Type); msgObj != nil {
 			for _, nat := range *msgObj {
 				if e.MethodExpr.StreamingPayload.IsRequired(nat.Name) {
@@ -380,6 +380,21 @@ func (e *GRPCEndpointExpr) Finalize() {
 	// Finalize errors
 	for _, gerr := range e.GRPCErrors {
 		gerr.Finalize(e)
+	}
+}
+
+// initMessageFromDesign initializes a request, streaming request or response
+// message whose type is not an object from the corresponding service type
+// attribute. Prepare allocates the Validation field of messages so
+// initAttrFromDesign does not copy the validations defined in the design: they
+// are merged here so that primitive, array and map messages get validated.
+func initMessageFromDesign(att, patt *AttributeExpr) {
+	initAttrFromDesign(att, patt)
+	if patt == nil || patt.Type == Empty || IsObject(patt.Type) {
+		return
+	}
+	if patt.Validation != nil && att.Validation != nil && att.Validation != patt.Validation {
+		att.Validation.Merge(patt.Validation)
 	}
 }
 
